@@ -42,6 +42,15 @@ theorem C11_payload (hash : Image → UInt64) (img : Image) (wf : WF img) (quiet
   rw [hk]
   simp [drawCmds, hc, txCmd]
 
+/-- **C11_row_major.** `content img` — the payload of `C11_payload` — is row-major RGBA: byte `k` of pixel
+(row, col) (the buffer element at `start + row·row_stride + col·col_stride`) sits at index
+`4·(row·width + col) + k`. -/
+theorem C11_row_major (img : Image) (wf : WF img) (row col k : Nat) (hr : row < img.shape.height)
+    (hc : col < img.shape.width) (hk : k < 4) :
+    (content img).pix[4 * (row * img.shape.width + col) + k]?
+      = (img.data.getD (img.shape.start + row * img.shape.rowStride + col * img.shape.colStride) default).bytes[k]? :=
+  content_index img wf row col k hr hc hk
+
 /-- the history as the monitor sees it: property-level event, bytes written for it -/
 def trace (hash : Image → UInt64) (h : Handler) (evs : List Ev) : List (SEv × List UInt8) :=
   (evs.map toSpec).zip (run hash h evs)
@@ -161,6 +170,11 @@ def exImg : Image :=
 def exImg2 : Image := ⟨#[⟨9, 9, 9, 9⟩], ⟨0, 1, 1, 1, 1, 1⟩⟩
 def exHash (img : Image) : UInt64 := if img.shape.width = 3 then 4294967294 else 77
 
+/-- cropped and transposed views of well-formed images are well formed (`Shape.crop` / `Shape.transpose`
+are tied to `Shape::view` / `Surface::transpose` by correspondence lines of the harness) -/
+example : WF ⟨exImg.data, (exImg.shape.crop 0 2 1 3).transpose⟩ :=
+  wf_transpose _ _ (wf_crop _ _ (wf_owned _ 3 2 rfl) (by decide) 0 2 1 3 (by decide) (by decide) (by decide) (by decide))
+
 example : WF exImg := wf_owned _ 3 2 rfl
 example : WF exImg2 := wf_owned _ 1 1 rfl
 example : exImg.isEmpty = false := by decide
@@ -169,5 +183,13 @@ example : IdFaithful exHash [exImg, exImg2] := by
   intro a ha b hb
   simp only [List.mem_cons, List.not_mem_nil, or_false] at ha hb
   rcases ha with rfl | rfl <;> rcases hb with rfl | rfl <;> decide
+
+/-- the monitor is not trivially satisfied: a placement of an id that was never transmitted is rejected … -/
+example : accepts Mon.init [(.draw ⟨1, 1, [1, 2, 3, 4]⟩ 0 0, putBytes 5 7 0)] = false := by decide
+/-- … and so is an erase at a position that carries placement id 0 (it would delete every placement) -/
+example : accepts Mon.init
+    [(.erase ⟨1, 1, [1, 2, 3, 4]⟩ (some (0, 0)),
+      apc [(97, [100]), (100, [105]), (105, decimal 5), (112, decimal 0)] none)] = false := by decide
+example : kitty (putBytes 5 7 0) = some [.put 5 7] := by decide
 
 end SurfProofs.C11
